@@ -12,6 +12,7 @@ import (
 
 	"github.com/bluenviron/gomavlib/v3/pkg/dialect"
 	"github.com/bluenviron/gomavlib/v3/pkg/frame"
+	"github.com/bluenviron/gomavlib/v3/pkg/message"
 )
 
 func init() { cmds["c01"] = cmdC01 }
@@ -156,6 +157,49 @@ func cmdC01Streams(o opts) {
 		g := em.group()
 		for _, sc := range [][]int{nil, {1}, {7}, {64, 3}, {1 + r.Intn(300)}} {
 			em.put(g, data, -1, "eof", sc, false, streamCfg{}, true, "written_stream")
+		}
+	}
+	// with a dialect: decoded messages written by one writer, the same value two to four times in a row between others (a
+	// vehicle repeats itself), both versions, read back by one reader with the dialect. Every frame comes back with the
+	// message that was written - also when the caller overwrites each message it is handed before reading on (the second
+	// run of streamEmitter.put)
+	all := findDialect("allplus")
+	drw := mustRW(all)
+	dcfg := streamCfg{drw: drw, dl: dialectIndices(all, defIndex(allProtos()))}
+	var small []message.Message
+	for _, m := range all.Messages {
+		if b, _ := sizesOf(defOf(m)); b <= 40 {
+			small = append(small, m)
+		}
+	}
+	nd := 6
+	if o.tier == "thorough" {
+		nd = 60
+	}
+	for s := 0; s < nd; s++ {
+		rw := &recWriter{}
+		ver := frame.WriterOutVersion(1 + s%2)
+		w := &frame.Writer{ByteWriter: rw, DialectRW: drw, OutVersion: ver, OutSystemID: 7}
+		if err := w.Initialize(); err != nil {
+			fatal("writer init: %v", err)
+		}
+		for i := 0; i < 3+r.Intn(5); i++ {
+			m := small[r.Intn(len(small))]
+			if ver == frame.V1 && m.GetID() > 255 {
+				continue
+			}
+			val := newMsg(m, randVals(r, shapes(defOf(m)), r.Intn(2) == 0))
+			for rep := 0; rep < 1+r.Intn(4); rep++ {
+				func() {
+					defer func() { recover() }()
+					w.WriteMessage(val) //nolint:errcheck
+				}()
+			}
+		}
+		data := append([]byte{}, rw.buf.Bytes()...)
+		g := em.group()
+		for _, sc := range [][]int{nil, {1 + r.Intn(40)}} {
+			em.put(g, data, -1, "eof", sc, false, dcfg, true, "written_stream_dialect")
 		}
 	}
 	// long histories through ONE reader (more payload than any internal block or pool of the reader holds), every frame
